@@ -330,6 +330,14 @@ pub fn valid_doc(n: usize, conns: &[(K, K)], strkeys: bool) -> G {
     ])
 }
 
+/// A larger valid document (values and weights kept inside i8).
+pub fn valid_doc_large(n: usize, conns: &[(K, K)], strkeys: bool) -> G {
+    G::Arr(vec![
+        G::Arr((0..n as u8).map(|k| G::Arr(vec![key_g(k, strkeys), G::Int((k as i128 % 12) * 10)])).collect()),
+        G::Arr(conns.iter().enumerate().map(|(i, (u, v))| G::Arr(vec![key_g(*u, strkeys), key_g(*v, strkeys), G::Int(i as i128 % 100 + 1)])).collect()),
+    ])
+}
+
 /// All graphs over n nodes with <= l edges as (u,v) lists, in every order
 /// (documents are sequences, not adjacency states).
 pub fn edge_lists(n: usize, l: usize) -> Vec<Vec<(K, K)>> {
@@ -600,7 +608,7 @@ impl<'a> Ctx<'a> {
         }
         crate::progress::tick();
         let flavour = self.job.flavour.as_str();
-        if !json || family == "prefix" {
+        if !json || family.ends_with("prefix") {
             // binary documents can make a deserialiser allocate or abort: name the exact case for crash attribution
             crate::progress::set_case(|| json!({"kind":"doc","flavour":flavour,"strkeys":strkeys,"json":json,"bytes":bytes,"family":family,"desc":desc}).to_string());
         }
@@ -707,6 +715,36 @@ pub fn sweep(job: &Job, out: &mut Out) {
                                 cx.case("json-byte", &format!("byte {} := {:?}", pos, *b as char), strkeys, true, &m);
                             }
                         }
+                    }
+                }
+            }
+        }
+    }
+    // (e) large documents (more nodes than any small-collection threshold):
+    // chain / cycle / fan-out / fan-in, every single structural fault, every prefix
+    let sizes: &[usize] = if thorough { &[17, 24, 33, 40] } else { &[20] };
+    for &n in sizes {
+        let chain: Vec<(K, K)> = (0..n - 1).map(|i| (i as K, (i + 1) as K)).collect();
+        let mut cyc = chain.clone();
+        cyc.push(((n - 1) as K, 0));
+        let fan: Vec<(K, K)> = (1..n).map(|i| (0, i as K)).collect();
+        let fan_in: Vec<(K, K)> = (1..n).map(|i| (i as K, 0)).collect();
+        let mut multi: Vec<(K, K)> = (0..n).map(|i| ((i % 3) as K, ((i / 3) % 3) as K)).collect();
+        multi.extend(chain.iter().cloned());
+        let shapes: Vec<(&str, Vec<(K, K)>)> = if thorough { vec![("chain", chain), ("cycle", cyc), ("fan", fan), ("fan-in", fan_in), ("multi", multi)] } else { vec![("cycle", cyc), ("fan-in", fan_in)] };
+        for (name, conns) in &shapes {
+            for strkeys in [false, true] {
+                let doc = valid_doc_large(n, conns, strkeys);
+                for json in [true, false] {
+                    let enc = encode(&doc, json);
+                    cx.case("large-valid", &format!("{} of {} nodes", name, n), strkeys, json, &enc);
+                    for cut in 0..enc.len() {
+                        cx.case("large-prefix", &format!("{} of {} nodes, first {} bytes", name, n, cut), strkeys, json, &enc[..cut]);
+                    }
+                }
+                for (desc, fd) in &single_faults(&doc, n, strkeys) {
+                    for json in [true, false] {
+                        cx.case("large-fault", &format!("{} of {} nodes: {}", name, n, desc), strkeys, json, &encode(fd, json));
                     }
                 }
             }
